@@ -339,6 +339,30 @@ def check(spec, ctx):
                     raise Violation("nonbonded:conversion", f"{a}-{b}: sigma/epsilon {got} do not reproduce C6/C12 {src}")
         elif not spec["gen_pairs"]:
             raise Violation("nonbonded:generated_without_gen_pairs", f"{a}-{b}")
+    # generated pairs are made from the atom types: an explicit self entry replaces the self term only,
+    # so the same topology without the explicit self lines has the same generated cross terms
+    selfs = [e for e in spec["nonbond"] if e[0] == e[1]]
+    if spec["gen_pairs"] and selfs:
+        import copy
+        other = copy.deepcopy(spec)
+        other["nonbond"] = [e for e in spec["nonbond"] if e[0] != e[1]]
+        path2 = ctx.dir / "sys_noself.top"
+        path2.write_text(render(other))
+        try:
+            topology2 = Topology.from_gmx_topfile(str(path2), "test")
+            topology2.preprocess()
+        except Exception as err:
+            raise crash("preprocess:crash_without_self_lines", err)
+        nb2 = topology2.nonbond_params
+        for a, b in itertools.combinations(types, 2):
+            key = frozenset((a, b))
+            if key in explicit or key not in nb or key not in nb2:
+                continue
+            one, two = (nb[key]["nb1"], nb[key]["nb2"]), (nb2[key]["nb1"], nb2[key]["nb2"])
+            if not all(math.isclose(x, y, rel_tol=1e-9) for x, y in zip(one, two)):
+                raise Violation("nonbonded:generated_pair_depends_on_explicit_self",
+                                f"{a}-{b}: {one} with the explicit self entries {selfs}, {two} without them")
+        ctx.label("explicit_self_with_generated_pairs")
     if competing_any:
         ctx.label("wildcard_competes")
     if multi_any:
